@@ -7,7 +7,8 @@ From Coq Require Import ZArith NArith String List Bool.
 Import ListNotations.
 From TP Require Import Base.PyVal Fields.FieldAst Fields.SetChain Fields.Doc Fields.Domain
   Struct.Shapes Struct.Instance Struct.Entry Struct.InstanceProofs Struct.NestedProofs
-  Struct.EntrySites Struct.EntrySitesProofs Gen.EntrySites Struct.EntrySitesToday.
+  Struct.EntrySites Struct.EntrySitesProofs Gen.EntrySites Struct.EntrySitesToday
+  Base.PyOps Base.PyOpsEnum Gen.GuardsEnum Fields.EnumGuardProofs.
 Local Open Scope string_scope.
 
 (* Where the line between theorem and correspondence is:
@@ -121,6 +122,20 @@ Proof. exact sites_characterisation. Qed.
 Theorem C01_entry_sites_today : sites_ok entry_sites default_unpickle = true.
 Proof. exact entry_sites_today. Qed.
 
+(* ------------------------------------------------------------------ tie of the Enum chain to the source
+   Enum._validate and Enum.__set__ (typedpy/fields/enum.py) are translated to Gallina on every run
+   (Gen/GuardsEnum.v).  For every enum class (all members [allm]), every declared subset [members] of
+   it, every list of literals and EVERY value, the translation of today's source stores / raises
+   exactly what the model [vset] does - on which the theorems above are proved. *)
+Theorem C01_src_Enum_cls_set : forall re_match e cls allm members v,
+    sub_alist members allm ->
+    Enum__set re_match (enum_cls_self cls allm members) v = vset re_match e (FEnumCls cls members) v.
+Proof. exact generated_enum_cls_set. Qed.
+
+Theorem C01_src_Enum_lit_set : forall re_match e values v,
+    Enum__set re_match (enum_lit_self values) v = vset re_match e (FEnumLit values) v.
+Proof. exact generated_enum_lit_set. Qed.
+
 (* The [stable] hypothesis cannot be dropped: Array(items=Boolean(), uniqueItems=True) given
    [True, 'True'] stores [True, True]. *)
 Definition cex_field : field := FSeqEach SeqList FBoolean no_sizec true.
@@ -145,6 +160,8 @@ Print Assumptions C01_entry_sites_sound.
 Print Assumptions C01_chain_sites_sound.
 Print Assumptions C01_sites_characterisation.
 Print Assumptions C01_entry_sites_today.
+Print Assumptions C01_src_Enum_cls_set.
+Print Assumptions C01_src_Enum_lit_set.
 
 (* ------------------------------------------------------------------ non-vacuity *)
 
@@ -216,3 +233,29 @@ Example C01_sites_nonvacuous :
   run_chain_sites (fun _ _ => true) ex_env entry_sites default_unpickle PNone ex_chain =
     run_chain (fun _ _ => true) ex_env PNone ex_chain.
 Proof. repeat split; vm_compute; reflexivity. Qed.
+
+(* the Enum tie is not vacuous: a declared subset of a class; the name of an excluded member is rejected,
+   a declared name is converted, a foreign class's member is rejected, an unhashable value is a TypeError *)
+Definition ex_color_all : list (pystr * pyval) :=
+  [(s2p "RED", PNum (NInt 1)); (s2p "GREEN", PNum (NInt 2)); (s2p "BLUE", PStr (s2p "b"))].
+Definition ex_color_sub : list (pystr * pyval) := [(s2p "RED", PNum (NInt 1)); (s2p "GREEN", PNum (NInt 2))].
+
+Example C01_src_Enum_nonvacuous :
+  sub_alist ex_color_sub ex_color_all /\
+  Enum__set (fun _ _ => true) (enum_cls_self (s2p "Color") ex_color_all ex_color_sub) (PStr (s2p "BLUE")) = Raise ValueError /\
+  Enum__set (fun _ _ => true) (enum_cls_self (s2p "Color") ex_color_all ex_color_sub) (PStr (s2p "GREEN")) =
+    Ok (PEnum (s2p "Color") (s2p "GREEN") (PNum (NInt 2))) /\
+  Enum__set (fun _ _ => true) (enum_cls_self (s2p "Color") ex_color_all ex_color_sub)
+            (PEnum (s2p "Color") (s2p "BLUE") (PStr (s2p "b"))) = Raise ValueError /\
+  Enum__set (fun _ _ => true) (enum_cls_self (s2p "Color") ex_color_all ex_color_sub)
+            (PEnum (s2p "Size") (s2p "RED") (PNum (NInt 1))) = Raise ValueError /\
+  Enum__set (fun _ _ => true) (enum_cls_self (s2p "Color") ex_color_all ex_color_sub) (PList []) = Raise TypeError /\
+  Enum__set (fun _ _ => true) (enum_lit_self [PNum (NInt 1); PStr (s2p "a")]) (PBool true) = Ok (PBool true) /\
+  Enum__set (fun _ _ => true) (enum_lit_self [PNum (NInt 1); PStr (s2p "a")]) (PStr (s2p "1")) = Raise ValueError.
+Proof.
+  split.
+  - intros n x H. unfold ex_color_sub, ex_color_all in *. cbn [alist_get] in *.
+    destruct (pystr_eqb (s2p "RED") n); [exact H|].
+    destruct (pystr_eqb (s2p "GREEN") n); [exact H| discriminate H].
+  - repeat split; vm_compute; reflexivity.
+Qed.
